@@ -1134,6 +1134,7 @@ class _Inliner:
         ret = f"result__{k}"
         single = len(body) == 1 and isinstance(body[0], ast.Return) and body[0].value is not None
         if not single:
+            _fold_rest_into_else(body)
             _tail_returns(body, ret)
             if any(isinstance(n, ast.Return) for s in body for n in source.walk_local(s)):
                 return None
@@ -1428,6 +1429,42 @@ def _card_source(expr, fn):
     return source.inline_node(e, defs)
 
 
+def _defs_with_tuples(fn):
+    """source.local_defs plus the names bound exactly once by a parallel assignment `a, self.x, b = <e1>, <e2>, <e3>` (same number of plain elements on both sides):
+    a -> <e1>, b -> <e3> (the swap-and-clear idiom `old, self.items = self.items, []`)"""
+    defs = dict(source.local_defs(fn))
+    stores = {}
+    for n in walk_body(fn):
+        if isinstance(n, ast.Name) and isinstance(n.ctx, (ast.Store, ast.Del)):
+            stores[n.id] = stores.get(n.id, 0) + 1
+    for n in walk_body(fn):
+        if isinstance(n, ast.Assign) and len(n.targets) == 1 and isinstance(n.targets[0], (ast.Tuple, ast.List)) and isinstance(n.value, (ast.Tuple, ast.List)) \
+                and len(n.targets[0].elts) == len(n.value.elts) and not any(isinstance(x, ast.Starred) for x in n.targets[0].elts + n.value.elts):
+            for t, v in zip(n.targets[0].elts, n.value.elts):
+                if isinstance(t, ast.Name) and stores.get(t.id) == 1 and t.id not in defs and t.id not in params_of(fn):
+                    defs[t.id] = v
+    return defs
+
+
+def _fold_rest_into_else(stmts):
+    """`try: A except E: H; return` followed by REST is `try: A except E: H; return else: REST` (every handler leaves the routine, no finally): the statements behind such a try
+    move into its else block, so that the returns of the handlers are in tail position (in place, recursively)"""
+    for i, st in enumerate(stmts):
+        if isinstance(st, ast.Try) and st.handlers and not st.finalbody and i + 1 < len(stmts) \
+                and all(h.body and isinstance(h.body[-1], (ast.Return, ast.Raise)) for h in st.handlers) \
+                and not any(isinstance(x, (ast.Break, ast.Continue)) for b in stmts[i + 1:] for x in source.walk_local(b)):
+            st.orelse = list(st.orelse) + stmts[i + 1:]
+            del stmts[i + 1:]
+            break
+    for st in stmts:
+        for f_ in ("body", "orelse", "finalbody"):
+            b = getattr(st, f_, None)
+            if isinstance(b, list) and b and isinstance(b[0], ast.stmt) and not isinstance(st, (ast.FunctionDef, ast.AsyncFunctionDef, ast.ClassDef)):
+                _fold_rest_into_else(b)
+        for h in getattr(st, "handlers", []) or []:
+            _fold_rest_into_else(h.body)
+
+
 def _inlined_names(fn_x):
     """names of the methods whose bodies were expanded into fn_x (recorded by the inliner)"""
     return set(getattr(fn_x, "_inlined", ()))
@@ -1611,8 +1648,25 @@ def run(chk):
                     flag_vals[ext] = bool(_Sim(model.table, MA, _Obj(name="self")).val(v, {mp_se: _Obj(name=mp_se, **{EXT_FIELD: ext})}))
                 except (_Cannot, _Raised):
                     pass
-            elif ext and isinstance(v, ast.Constant):
-                flag_vals.setdefault(True, v.value)  # a constant stored under a test over the field: what the flag holds for an external cluster
+            elif isinstance(v, ast.Constant):
+                # a constant stored under test(s) over the field (`if msg.external: self.<flag> = True ... else: self.<flag> = False`, also behind a guard clause): it is what the
+                # flag holds in the case in which every one of those tests comes out the way this write needs it
+                holds = []
+                for t_, pol_ in guards(n, path_sensitive=True):
+                    t_ = source.inline_node(t_, se_defs_x)
+                    if mentions_ext(t_):
+                        try:
+                            holds.append(bool(_Sim(model.table, MA, _Obj(name="self")).val(t_, {mp_se: _Obj(name=mp_se, **{EXT_FIELD: ext})})) is pol_)
+                        except (_Cannot, _Raised):
+                            holds.append(None)
+                if holds and all(h_ is True for h_ in holds):
+                    flag_vals.setdefault(ext, v.value)
+
+    def reads_flag(test, fn):
+        """the test is a condition over the externally-provisioned flag (an attribute derived from the field) or over the field of the start message itself"""
+        e_ = source.inline_node(test, source.local_defs(fn))
+        ps_ = params_of(fn)
+        return any(is_self_attr(x) and x.attr in flag_writes for x in ast.walk(e_)) or (fn.name == se.name and len(ps_) > 1 and mentions_ext(e_, ps_[1]))
 
     def flag_value(test, fn, ext):
         """truth value of a test of method fn for an externally provisioned (ext=True) / a provisioned cluster; None if the stand-ins do not decide it"""
@@ -1631,8 +1685,24 @@ def run(chk):
             return None
 
     def only_when_external(node, fn):
-        """the node runs only for an externally provisioned cluster: one of the conditions it runs under holds for external and fails for provisioned"""
-        return any(flag_value(t, fn, True) is pol and flag_value(t, fn, False) is (not pol) for t, pol in guards(node, path_sensitive=True))
+        """True: the node runs only for an externally provisioned cluster (one of the conditions it runs under holds for external and fails for provisioned); False: no condition
+        separates the two cases; None: a condition over the flag / the field is there but the stand-in values do not decide it (not recognised, never a verdict)"""
+        undecided = False
+        for t, pol in guards(node, path_sensitive=True):
+            a_, b_ = flag_value(t, fn, True), flag_value(t, fn, False)
+            if a_ is pol and b_ is (not pol):
+                return True
+            if (a_ is None or b_ is None) and reads_flag(t, fn):
+                undecided = True
+        return None if undecided else False
+
+    def undecided_tests(fn, ext):
+        """tests of fn over the flag / the field that the stand-in values do not decide"""
+        return [n.test for n in walk_body(fn) if isinstance(n, (ast.If, ast.While, ast.IfExp)) and reads_flag(n.test, fn) and flag_value(n.test, fn, ext) is None]
+
+    def arm_not_taken(node, fn, ext):
+        """the node sits in an arm of a decided if / conditional expression that is not the one taken for this case (conditional expressions are one CFG node)"""
+        return any(flag_value(t, fn, ext) is (not pol) for t, pol in guards(node, path_sensitive=True))
 
     def feasible(fn, ext):
         """ids of the CFG nodes of fn that can run for an external (ext=True) / provisioned cluster: the edges that a decided test does not take are removed"""
@@ -1689,7 +1759,8 @@ def run(chk):
             if m.name != ext_handler:
                 return [(False, f"reached directly from the handler {m.name} (bypasses the acknowledgement count)")]
             ext = only_when_external(node, m)
-            return [(ext, f"direct call in {m.name} {'only for an externally provisioned cluster' if ext else 'NOT restricted to an externally provisioned cluster'}")]
+            return [(ext, f"direct call in {m.name} " + ("only for an externally provisioned cluster" if ext else "NOT restricted to an externally provisioned cluster" if ext is False else
+                                                       "under a condition over the externally-provisioned flag that is not decided on stand-in values"))]
         if m in seen:
             return []
         rs = refs_to(m)
@@ -1975,7 +2046,7 @@ def run(chk):
         seen = set() if seen is None else seen
         out = []
         for n in walk_body(fn_x):
-            if not isinstance(n, ast.Call) or (live is not None and not any(x.id in live for x in g_.nodes_of(n))):
+            if not isinstance(n, ast.Call) or (live is not None and (not any(x.id in live for x in g_.nodes_of(n)) or arm_not_taken(n, fn_x, True))):
                 continue
             if last_attr(n.func) in _ACTS:
                 out.append(n)
@@ -1992,6 +2063,11 @@ def run(chk):
             chk.unknown("O12.2", f"{hname}: no path creates an actor or sends a start / stop message (the provisioned path was not recognised)", hx)
             continue
         bad = acts_in(hx, feasible(hx, True))
+        und = undecided_tests(hx, True)
+        if bad and und:
+            chk.unknown("O12.2", f"{hname}: the condition `{short(und[0], 60)}` over the externally-provisioned flag is not decided on stand-in values (which arm an external cluster takes "
+                        "was not recognised)", und[0])
+            continue
         chk.ob("O12.2", f"{hname}: external arm creates/starts/stops nothing", not bad, bad[0] if bad else hx,
                f"an externally provisioned cluster reaches {sorted({last_attr(c.func) for c in bad})}" if bad else
                f"no createActor / StartNodes / StopNodes reachable for an externally provisioned cluster ({len(everywhere)} such call(s) for a provisioned one)")
@@ -2005,11 +2081,14 @@ def run(chk):
 
         in_start = writes_of(se_x)
         elsewhere = [n for m_ in MA.methods.values() if m_.name not in (se.name, "__init__") and m_.name not in _inlined_names(se_x) for n in writes_of(m_)]
-        from_msg = [n for n in in_start if isinstance(n, ast.Assign) and mentions_ext(source.inline_node(n.value, se_defs_x))]
+        # derived from the message: assigned from an expression over the field, or a constant stored under a test over the field (both arms then have to store one: the
+        # every-path condition below)
+        from_msg = [n for n in in_start if any(n is w_ for w_ in flag_writes[flag])]
         gse = cfg_of(se_x)
         readers = [n for n in walk_body(se_x) if isinstance(n, (ast.If, ast.While)) and any(is_self_attr(x, flag) for x in ast.walk(n.test))]
         fm_nodes = [gse.node_of(n) for n in from_msg]
-        ok = bool(from_msg) and len(from_msg) == len(in_start) and not elsewhere and all(gse.dominated_by_nodes(gse.node_of(r), fm_nodes) for r in readers) \
+        keeps_old = [n for n in from_msg if isinstance(n, ast.Assign) and any(is_self_attr(x, flag) for x in ast.walk(source.inline_node(n.value, se_defs_x)))]  # flag = flag or ...
+        ok = bool(from_msg) and len(from_msg) == len(in_start) and not elsewhere and not keeps_old and all(gse.dominated_by_nodes(gse.node_of(r), fm_nodes) for r in readers) \
             and gse.must_pass(gse.entry, fm_nodes)
         chk.ob("O12.2", f"`self.{flag}` is assigned from the StartEngine message before the branch, on every path (never sticky)", ok, in_start[0] if in_start else se,
                f"writes in the handler: {[short(n, 50) for n in in_start]}" + (f", elsewhere: {[short(n, 40) for n in elsewhere]}" if elsewhere else "")
@@ -2139,6 +2218,8 @@ def run(chk):
             a_ = sends_of(t_, "NodesStarted")
             tgts = [e.args[0] for _, e in a_]
             ok = len(a_) == 1 and (_eq(tgts[0], want) or (relay_forwards_acks and _eq(tgts[0], RELAY)))
+            if not with_reply_to and (not a_ or not all(isinstance(t__, str) for t__ in tgts)):
+                continue  # the dispatcher always stamps reply_to: what a handler does with a message that lacks the field (unknown target, no acknowledgement) is not judged
             if with_reply_to or not ok:
                 chk.ob("O12.3", "NodesStarted goes to reply_to/sender", ok, a_[0][1].node if a_ else sn,
                        f"start message {'with' if with_reply_to else 'without'} reply_to: NodesStarted goes to {tgts} (expected: the {want})")
@@ -2180,7 +2261,7 @@ def run(chk):
         raise AnchorMissing("Mechanic.stop_engine / start_engine")
     st = _Inliner(model.table, MI).expand(st_orig)  # helpers of the Mechanic (flush_metrics, _add_results, an extracted clean-up routine ...) are analysed as part of stop_engine
     gst = cfg_of(st)
-    st_defs = source.local_defs(st)
+    st_defs = _defs_with_tuples(st)
     # roles of the Mechanic's attributes, from start_engine: self.<NODES> = self.<LAUNCHER>.start(self.<CONFIGS>)
     se_mx = _Inliner(model.table, MI).expand(se_m)
     launches = [n for n in walk_body(se_mx) if isinstance(n, ast.Assign) and any(is_self_attr(t) for t in n.targets) and isinstance(n.value, ast.Call)
@@ -2228,7 +2309,29 @@ def run(chk):
         chk.ob("O12.5", f"{name} on every normal path", ok, cs[0], f"once per element of `{u(over)}`" + (" (conditionally)" if conditional else ""))
     rf = source.arg_of(flush_c[0], 0, "refresh")
     rf = source.inline_node(rf, st_defs) if rf is not None else None
-    chk.ob("O12.5", "flush with refresh", rf is not None and source.is_const(rf, True), flush_c[0], short(flush_c[0], 50))
+    if rf is None:
+        # not passed: the default of the routine that is called decides (Mechanic.flush_metrics(refresh=False), MetricsStore.flush(refresh=True))
+        fname = last_attr(flush_c[0].func)
+        if _self_call(flush_c[0]):
+            cands = [m_ for m_ in [model.table.method(MI, fname)] if m_ is not None]
+        else:
+            mm = repo.module("esrally/metrics.py")
+            chk.use(mm)
+            cands = [n for n in ast.walk(mm.tree) if isinstance(n, ast.FunctionDef) and n.name == fname]
+        dflts = set()
+        for f_ in cands:
+            ps_ = [x.arg for x in f_.args.posonlyargs + f_.args.args]
+            d_ = dict(zip(ps_[len(ps_) - len(f_.args.defaults):], f_.args.defaults))
+            d_.update({x.arg: v for x, v in zip(f_.args.kwonlyargs, f_.args.kw_defaults) if v is not None})
+            dflts.add(d_["refresh"].value if isinstance(d_.get("refresh"), ast.Constant) else None)
+        if not dflts or None in dflts or len({bool(x) for x in dflts}) != 1:
+            chk.unknown("O12.5", f"`{short(flush_c[0], 50)}` does not pass `refresh` and the default of the routine(s) called ({len(cands)} definition(s) of {fname}) is not one constant", flush_c[0])
+        else:
+            chk.ob("O12.5", "flush with refresh", bool(next(iter(dflts))) is True, flush_c[0], f"{short(flush_c[0], 50)} (refresh not passed, default {next(iter(dflts))!r})")
+    elif isinstance(rf, ast.Constant):
+        chk.ob("O12.5", "flush with refresh", rf.value is True, flush_c[0], short(flush_c[0], 50))
+    else:
+        chk.unknown("O12.5", f"the value of the refresh argument of `{short(flush_c[0], 50)}` is not a constant: {short(rf, 40)}", flush_c[0])
     pv = source.arg_of(clean_c[0], 0, "preserve")
     init = mech.methods(M).get("__init__")
     pv_x = source.inline_node(pv, st_defs) if pv is not None else None
@@ -2259,8 +2362,37 @@ def run(chk):
         if not resets and shrinks:
             chk.unknown("O12.5", f"self.{attr} is shrunk element by element (`{short(shrinks[0], 40)}`): whether it ends up empty is not decided", shrinks[0])
             continue
+        rewrites = [n for n in walk_body(st) if isinstance(n, (ast.Assign, ast.AugAssign, ast.AnnAssign)) and any(is_self_attr(x, attr) and isinstance(x.ctx, ast.Store) for x in ast.walk(n))]
+        if not resets and rewrites:
+            chk.unknown("O12.5", f"self.{attr} is re-assigned in stop_engine (`{short(rewrites[0], 50)}`) but not to a value recognised as empty: whether it ends up empty is not decided", rewrites[0])
+            continue
         chk.ob("O12.5", f"self.{attr} emptied after stop", bool(resets) and gst.must_pass(gst.entry, [gst.node_of(r) for r in resets]), resets[0] if resets else st,
                "" if resets else f"stop_engine never empties self.{attr}: a second stop (exit request after StopNodes, re-used mechanic) handles the same nodes again")
+        # ... and only AFTER the stages have used it: the reads of the attribute that reach the launcher's stop call / the loops around the result and clean-up calls (through
+        # single-assignment locals, also those of a swap-and-clear `old, self.<attr> = self.<attr>, []`) are not behind a statement that empties it
+        def reads_of(expr, seen=(), attr=attr):
+            out = []
+            for x in ast.walk(expr):
+                if is_self_attr(x, attr) and isinstance(x.ctx, ast.Load):
+                    out.append(x)
+                elif isinstance(x, ast.Name) and isinstance(x.ctx, ast.Load) and x.id in st_defs and x.id not in seen:
+                    out += reads_of(st_defs[x.id], seen + (x.id,))
+            return out
+
+        uses = [x for c in stop_c for a in list(c.args) + [k.value for k in c.keywords] for x in reads_of(a)]
+        for c in add_c + clean_c:
+            for lp in source.ancestors(c):
+                if lp is st:
+                    break
+                if isinstance(lp, ast.For):
+                    uses += reads_of(lp.iter)
+                elif isinstance(lp, (ast.ListComp, ast.SetComp, ast.GeneratorExp, ast.DictComp)):
+                    uses += [x for g_ in lp.generators for x in reads_of(g_.iter)]
+        if resets and uses:
+            late = [(r, x) for r in resets for x in uses if source.enclosing_stmt(x) is not r and gst.path_exists(gst.node_of(r), gst.node_of(x))]
+            chk.ob("O12.5", f"self.{attr} is emptied only after the stages of stop_engine have read it", not late, late[0][1] if late else resets[0],
+                   f"{len(uses)} read(s) feed the launcher stop / the per-node loops, none behind `{short(resets[0], 40)}`" if not late else
+                   f"`{short(source.enclosing_stmt(late[0][1]), 60)}` reads self.{attr} after `{short(late[0][0], 40)}` has emptied it: nothing is stopped / stored / cleaned up")
     # node actor: what it does with StopNodes / an exit request / other messages, evaluated on a stand-in actor that holds a mechanic
     MECH = _Obj(cls="Mechanic", name="the mechanic of this host")
     COORD = "address of the mechanic actor (sender of StopNodes)"
@@ -2389,6 +2521,14 @@ def run(chk):
                 t_ = source.inline_node(t, sdefs6)
                 present = (pol and isinstance(t_, ast.Name) and t_.id == store_p) or _patf.is_(t_ if pol else None, "V_s is not None", binds={"s": store_p}) \
                     or (not pol and _patf.is_(t_, "V_s is None", binds={"s": store_p}))
+                if not present:
+                    # decided on values: a condition over the store parameter alone that comes out the way this arm needs it for a store and the other way for None
+                    # (`bool(metrics_store)`, `metrics_store != None`, `not (metrics_store is None)` ...)
+                    try:
+                        sim6 = _Sim(model.table, model.table.get(cname, _L), _Obj(name="self"))
+                        present = bool(sim6.val(t_, {store_p: _Obj(name="the metrics store")})) is pol and bool(sim6.val(t_, {store_p: None})) is (not pol)
+                    except (_Cannot, _Raised):
+                        present = False
                 if present:
                     tn = gl.node_of(t)
                     allowed_false += [(tn.id, y, lab) for (y, lab) in gl.succ[tn.id] if lab == ("false" if pol else "true")]
@@ -2460,10 +2600,16 @@ def run(chk):
         raise AnchorMissing("Dispatcher: no method sends the parked start messages (send inside a loop over the parked pairs)")
     gde = cfg_of(de)
     sub_or_send = [gde.node_of(c) for c in _effect_sites(model, DI, de, is_subscribe) + _effect_sites(model, DI, de, is_start_send)]
-    ok = bool(sub_or_send) and gde.must_pass(gde.entry, sub_or_send, normal_only=True)
-    chk.ob("O12.4b", "Dispatcher.receiveMsg_StartEngine: subscribes unless the start messages are sent at once", ok, de,
-           "" if ok else "a path parks the start messages without subscribing to registration changes: neither the joining nor the departure of a daemon is ever noticed",
-           key=f"{_M}:Dispatcher.receiveMsg_StartEngine:subscribes")
+    api_anywhere = [c for f_ in DI.methods.values() for c, en in _subscription_calls(f_) if en is True]
+    if not sub_or_send and api_anywhere:
+        # the class does subscribe somewhere, but no site is reached from the handler through calls of its own methods (a table, a function of the module ...): not recognised
+        chk.unknown("O12.4b", f"{de.name}: neither a subscription to registration changes nor the sending of the parked start messages was located in the handler or the methods it calls "
+                    f"(`{short(api_anywhere[0], 50)}` exists elsewhere in the class)", de)
+    else:
+        ok = bool(sub_or_send) and gde.must_pass(gde.entry, sub_or_send, normal_only=True)
+        chk.ob("O12.4b", "Dispatcher.receiveMsg_StartEngine: subscribes unless the start messages are sent at once", ok, de,
+               "" if ok else "a path parks the start messages without subscribing to registration changes: neither the joining nor the departure of a daemon is ever noticed",
+               key=f"{_M}:Dispatcher.receiveMsg_StartEngine:subscribes")
 
     # ---- O12.4c the death of a node mechanic reaches race control (F42) -----------------------------------------------------------------------------
     chk.rule("O12.4c", "every actor class that creates node mechanic actors handles ChildActorExited (Thespian notifies the PARENT) by sending a BenchmarkFailure or by forwarding the "
@@ -2658,6 +2804,13 @@ _H3_MODFUNC_CHAIN = ("            if isinstance(msg, StopNodes):\n              
                      "                if self.mechanic:\n                    _stop_nodes(self)\n            elif self.mechanic and isinstance(msg, ResetRelativeTime):\n"
                      "                self.mechanic.reset_relative_time()\n            elif self.mechanic and isinstance(msg, thespian.actors.WakeupMessage):\n"
                      "                self.mechanic.flush_metrics()\n                self.wakeupAfter(METRIC_FLUSH_INTERVAL_SECONDS)\n")
+_H3_STOP_TAIL = ("        self.metrics_store.close()\n        self.nodes = []\n        for node_config in self.node_configs:\n"
+                 "            provisioner.cleanup(preserve=self.preserve_install, install_dir=node_config.binary_path, data_paths=node_config.data_paths)\n        self.node_configs = []\n")
+_H3_STORE_RESULTS = ("        try:\n            current_race = self._current_race()\n            for node in self.nodes:\n                self._add_results(current_race, node)\n"
+                     "        except exceptions.NotFound as e:\n            self.logger.warning(\"Cannot store system metrics: %s.\", str(e))\n\n        self.metrics_store.close()\n")
+_H3_STORE_HELPER = ("    def _store_system_metrics(self):\n        try:\n            current_race = self._current_race()\n        except exceptions.NotFound as e:\n"
+                    "            self.logger.warning(\"Cannot store system metrics: %s.\", str(e))\n            return\n        for node in self.nodes:\n"
+                    "            self._add_results(current_race, node)\n\n")
 _H3_CHILD_EXIT = ("        if self.is_current_status_expected([\"cluster_stopping\", \"cluster_stopped\"]):\n"
                   "            self.logger.info(\"Child actor exited while engine is stopping or stopped: [%s]\", msg)\n            return\n"
                   "        failmsg = \"Child actor exited with [%s] while in status [%s].\" % (msg, self.status)\n        self.logger.error(failmsg)\n"
@@ -2981,7 +3134,7 @@ VARIANTS = [
     V("H3: the status table treats an exit while the nodes are starting as expected", "break", _M, _H3_CHILD_EXIT,
       "        benign = {s: self._child_exit_expected for s in (\"starting\", \"cluster_stopping\", \"cluster_stopped\")}\n        benign.get(self.status, self._child_exit_unexpected)(msg)\n\n"
       + _H3_CHILD_EXIT_ROUTINES, "O12.4c"),
-    V("H3: reaction to an exited child taken from a table the simulation cannot evaluate (not recognised, never a verdict)", "break", _M, _H3_CHILD_EXIT,
+    V("H3: an exit while the nodes are starting is dropped in front of a table the simulation cannot evaluate", "break", _M, _H3_CHILD_EXIT,
       "        if self.status == \"starting\":\n            return\n        actor.CHILD_EXIT_REACTIONS.get(self.status, actor.report_child_exit)(self, msg)\n", "O12.4c"),
     V("H3: convention update dispatched on remoteAdded through a dict of bound methods, node actors created by a lambda", "keep", _M, _H3_CONV_BODY,
       "        {True: self._remote_joined, False: self._remote_left}[bool(convmsg.remoteAdded)](convmsg)\n\n" + _H3_CONV_ROUTINES),
@@ -2989,6 +3142,50 @@ VARIANTS = [
       "        {True: self._remote_joined, False: self._remote_left}[bool(convmsg.remoteAdded)](convmsg)\n\n"
       + _H3_CONV_ROUTINES.replace("        self.send(\n            self.start_sender,\n            actor.BenchmarkFailure(\"Remote Rally node [%s] has been shutdown prematurely.\" % convmsg.remoteAdminAddress),\n        )\n", ""),
       "O12.4"),
+    [V("H3: the external flag is stored as a constant in each arm of a test over the field of the start message", "keep", _M,
+       "        self.externally_provisioned = msg.external\n        if self.externally_provisioned:\n", "        if msg.external:\n            self.externally_provisioned = True\n"),
+     V("", "keep", _M, "            console.info(\"Preparing for race ...\", flush=True)\n", "            self.externally_provisioned = False\n            console.info(\"Preparing for race ...\", flush=True)\n")],
+    V("H3: constant flag stored in the external arm only (a provisioned start after an external one keeps it)", "break", _M,
+      "        self.externally_provisioned = msg.external\n        if self.externally_provisioned:\n", "        if msg.external:\n            self.externally_provisioned = True\n", "O12.2"),
+    [V("H3: constants in the two arms stored the wrong way round", "break", _M,
+       "        self.externally_provisioned = msg.external\n        if self.externally_provisioned:\n", "        if msg.external:\n            self.externally_provisioned = False\n", "O12."),
+     V("", "break", _M, "            console.info(\"Preparing for race ...\", flush=True)\n", "            self.externally_provisioned = True\n            console.info(\"Preparing for race ...\", flush=True)\n")],
+    V("H3: the flag accumulates over starts (flag = flag or msg.external)", "break", _M, "        self.externally_provisioned = msg.external\n",
+      "        self.externally_provisioned = self.externally_provisioned or msg.external\n", "O12.2"),
+    V("H3: stop routine chosen by a conditional expression (StopNodes is built in the arm an external cluster does not take)", "keep", _M,
+      "        if self.externally_provisioned:\n            self.on_all_nodes_stopped()\n        else:\n            self.send_to_children_and_transition(sender, StopNodes(), [], \"cluster_stopping\")\n",
+      "        self.on_all_nodes_stopped() if self.externally_provisioned else self.send_to_children_and_transition(sender, StopNodes(), [], \"cluster_stopping\")\n"),
+    V("H3: conditional expression with the arms the wrong way round", "break", _M,
+      "        if self.externally_provisioned:\n            self.on_all_nodes_stopped()\n        else:\n            self.send_to_children_and_transition(sender, StopNodes(), [], \"cluster_stopping\")\n",
+      "        self.send_to_children_and_transition(sender, StopNodes(), [], \"cluster_stopping\") if self.externally_provisioned else self.on_all_nodes_stopped()\n", "O12."),
+    V("H3: swap-and-clear with a parallel assignment, the clean-up loop runs over the saved list", "keep", _M, _H3_STOP_TAIL,
+      "        self.metrics_store.close()\n        stopped_configs, self.node_configs, self.nodes = self.node_configs, [], []\n        for node_config in stopped_configs:\n"
+      "            provisioner.cleanup(preserve=self.preserve_install, install_dir=node_config.binary_path, data_paths=node_config.data_paths)\n"),
+    V("H3: swap-and-clear, but the clean-up loop runs over the attribute that was just emptied", "break", _M, _H3_STOP_TAIL,
+      "        self.metrics_store.close()\n        stopped_configs, self.node_configs, self.nodes = self.node_configs, [], []\n        for node_config in self.node_configs:\n"
+      "            provisioner.cleanup(preserve=self.preserve_install, install_dir=node_config.binary_path, data_paths=node_config.data_paths)\n", "O12.5"),
+    V("H3: the list of nodes is emptied before the launcher is asked to stop them", "break", _M, "        self.launcher.stop(self.nodes, self.metrics_store)\n        self.flush_metrics(refresh=True)\n",
+      "        nodes, self.nodes = self.nodes, []\n        self.launcher.stop(self.nodes, self.metrics_store)\n        self.flush_metrics(refresh=True)\n", "O12.5"),
+    [V("H3: storing of the system metrics extracted into a helper whose handler returns early (try / except-return, then the loop)", "keep", _M, _H3_STORE_RESULTS,
+       "        self._store_system_metrics()\n\n        self.metrics_store.close()\n"),
+     V("", "keep", _M, "    def _current_race(self):\n", _H3_STORE_HELPER + "    def _current_race(self):\n")],
+    [V("H3: the extracted storing helper runs after the metrics store was closed", "break", _M, _H3_STORE_RESULTS,
+       "        self.metrics_store.close()\n        self._store_system_metrics()\n", "O12.5"),
+     V("", "break", _M, "    def _current_race(self):\n", _H3_STORE_HELPER + "    def _current_race(self):\n")],
+    V("H3: stop_engine flushes the metrics store directly and relies on its default (refresh=True)", "keep", _M, "        self.flush_metrics(refresh=True)\n        try:\n            current_race",
+      "        self.metrics_store.flush()\n        try:\n            current_race"),
+    V("H3: stop_engine relies on the default of Mechanic.flush_metrics (refresh=False)", "break", _M, "        self.flush_metrics(refresh=True)\n        try:\n            current_race",
+      "        self.flush_metrics()\n        try:\n            current_race", "O12.5"),
+    [V("H3: presence of the metrics store spelt as a value test (bool(...) is True, != None)", "keep", _L,
+       "            if metrics_store:\n                node.telemetry.store_system_metrics(node, metrics_store)\n\n\ndef wait_for_pidfile",
+       "            if bool(metrics_store) is True:\n                node.telemetry.store_system_metrics(node, metrics_store)\n\n\ndef wait_for_pidfile"),
+     V("", "keep", _L, "            if metrics_store:\n                node.telemetry.store_system_metrics(node, metrics_store)\n        return stopped_nodes",
+       "            if metrics_store != None:\n                node.telemetry.store_system_metrics(node, metrics_store)\n        return stopped_nodes")],
+    V("H3: value test over the store that holds when it is absent", "break", _L,
+      "            if metrics_store:\n                node.telemetry.store_system_metrics(node, metrics_store)\n        return stopped_nodes",
+      "            if metrics_store == None:\n                node.telemetry.store_system_metrics(node, metrics_store)\n        return stopped_nodes", "O12.6"),
+    V("H3: the acknowledgement goes to msg.reply_to (the dispatcher always stamps it)", "keep", _M, "            self.send(getattr(msg, \"reply_to\", sender), NodesStarted())",
+      "            self.send(msg.reply_to, NodesStarted())"),
     [V("H3: failure reporting of StartNodes through a local function defined in front of the try", "keep", _M,
        "        try:\n            self.host = msg.ip\n            self.reply_to = getattr(msg, \"reply_to\", sender)\n",
        "        def report_failure():\n            _, ex_value, _ = sys.exc_info()\n            self.send(getattr(msg, \"reply_to\", sender), actor.BenchmarkFailure(ex_value, traceback.format_exc()))\n\n"
